@@ -46,7 +46,8 @@ def seq(term, ty, src="slice", ops=None):
     body += SEQ + "    kani::cover!(true);\n"
     name = cfg_name("c08_max1", term, p.type(), src, "eager" if p.eager_sites() else "")
     return H(name, body, {"terminal": term, "type": p.type(), "pipeline": p.descr(), "n": n, "threads": 1, "num_threads": "Max(1)",
-                          "available_parallelism": 4, "schedule": "must stay on the caller"}, unwind=n + 3, weight=6)
+                          "available_parallelism": 4, "schedule": "must stay on the caller"},
+             unwind=(2 * n + 3 if any(o.kind == "flat_map" for o in p.ops) else n + 3), weight=6)
 
 
 def harnesses(tier, seed):
@@ -71,6 +72,8 @@ def harnesses(tier, seed):
                          ("collect_x", "MF"), ("for_each", "M"), ("collect_into", "FMF")):
             hs.append(seq(term, ty))
         hs.append(seq("count", None, ops=[F(3), FL(6)]))          # eager site F::flat_map
+        hs.append(seq("count", None, ops=[M(1), F(3), FL(6)]))    # eager site MF::flat_map
+        hs.append(seq("reduce_xor", None, ops=[FM(5), FL(6)]))    # eager site FM::flat_map
         hs.append(seq("count", None, ops=[FL(6), F(3), M(1)]))    # eager site FLF::map
     else:
         for term, ty in (("count", "MF"), ("count", "FMF"), ("count", "FLF"), ("find", "MF"), ("find", "FMF"), ("find", "FLF"),
